@@ -37,12 +37,23 @@ def arg(l: Logged, index: int, name: str = "") -> Optional[Term]:
     """Positional argument ``index`` (or keyword ``name``) of a logged call."""
     assert l.kind == "call" and l.value is not None
     args, kws = l.value[2], l.value[3]
+    func = l.value[1]
     if name:
         for k, v in kws:
             if k == name:
                 return v
     if 0 <= index < len(args):
         return args[index]
+    # the other spelling of the same argument (positional <-> keyword), from the callee's signature
+    n2 = sym.param_name(func, index) if index >= 0 else None
+    if n2 is not None:
+        for k, v in kws:
+            if k == n2:
+                return v
+    if name:
+        i2 = sym.param_index(func, name)
+        if i2 is not None and 0 <= i2 < len(args):
+            return args[i2]
     return None
 
 
@@ -132,3 +143,52 @@ def simplify_under(t: Any, conds: tuple) -> Any:
         return None
 
     return sym.subst(t, fn)
+
+
+def _lit_key(t: Any):
+    """Python value of a literal key term: constants, set/frozenset/tuple literals of constants."""
+    t = unobj(t)
+    if t[0] == "const":
+        return t[1]
+    if t[0] in ("set", "tuple", "list") and all(x[0] == "const" for x in t[1:]):
+        vals = [x[1] for x in t[1:]]
+        return frozenset(vals) if t[0] == "set" else tuple(vals)
+    if t[0] == "call" and t[1] in (("name", "frozenset"), ("name", "set"), ("name", "tuple")) and len(t[2]) == 1 and not t[3]:
+        v = _lit_key(t[2][0])
+        if isinstance(v, (frozenset, tuple)):
+            return frozenset(v) if t[1][1] != "tuple" else tuple(v)
+    return None
+
+
+def finite_maps(t: Any) -> list:
+    """Finite key -> value tables a term spells, as (subject term, {key: value term}) pairs: a dict literal that is
+    indexed / `.get`-queried (subject = the key expression), and a chain of conditionals whose tests compare one
+    subject with literals (`x == 'a'`, `set(x) == {...}`)."""
+    out = []
+    for x in sym.subterms(t):
+        d = k = None
+        if x[0] == "idx" and unobj(x[1])[0] == "dict":
+            d, k = unobj(x[1]), x[2]
+        elif x[0] == "call" and x[1][0] == "attr" and x[1][2] == "get" and unobj(x[1][1])[0] == "dict" and x[2]:
+            d, k = unobj(x[1][1]), x[2][0]
+        if d is not None:
+            table = {}
+            for kk, vv in d[1:]:
+                key = _lit_key(kk)
+                if key is not None:
+                    table[key] = vv
+            out.append((k, table))
+    # conditional chains
+    chains: dict = {}
+    for conds, leaf in branches(t):
+        if not conds:
+            continue
+        last = conds[-1]
+        for lit in sym.conj_of(last):
+            if lit[0] == "cmp" and lit[1] == "Eq":
+                for a, b in ((lit[2], lit[3]), (lit[3], lit[2])):
+                    key = _lit_key(b)
+                    if key is not None and _lit_key(a) is None:
+                        chains.setdefault(a, {})[key] = leaf
+    out += list(chains.items())
+    return out
